@@ -102,8 +102,9 @@ func propC04(a *Analysis, r *Registry) {
 			env.Set("mean", fc.Val(mn), nil)
 			b.Eq(rB, fname+"/T", where, fc.Val(call.Common().Args[2]), env, "(mean-mu0)*sqrt(len(x1))/sd")
 			b.Eq(rB, fname+"/DoF", where, fc.Val(call.Common().Args[3]), env, "len(x1)-1")
-			b.Eq(rB, fname+"/N1", where, fc.Val(call.Common().Args[0]), env, "len(x1)")
-			b.Eq(rB, fname+"/N2", where, fc.Val(call.Common().Args[1]), env, "len(x2)")
+			// (compared under what is known at the call: len(x1) == len(x2) past the mismatch guard)
+			b.EqAt(rB, fname+"/N1", where, fc, call, fc.Val(call.Common().Args[0]), env.MustParse("len(x1)"), "N1 = len(x1)")
+			b.EqAt(rB, fname+"/N2", where, fc, call, fc.Val(call.Common().Args[1]), env.MustParse("len(x2)"), "N2 = len(x2)")
 			b.Eq(rB, fname+"/alt", where, fc.Val(call.Common().Args[4]), env, "alt")
 			b.ErrGuard(rG, fc, env, "ErrMismatchedSamples", "len(x1) != len(x2)")
 			b.ErrGuard(rG, fc, env, "ErrSampleSize", "len(x1) == len(x2) && len(x1) <= 1")
